@@ -342,6 +342,7 @@ RULES = [
      lambda ctx: __import__("c10").r1(ctx, only=lambda s: s.fn.startswith("util::datetime::") or s.fn == "function::Variant::to_datetime", rule_prefix="date-")),
     ("X-DATEALIKE", "date look-ahead of the lexer (regex, year and month ranges)", lambda ctx: __import__("extra").looks_like_date_rule(ctx)),
     ("X-OPERANDS", "each operand of a comparison is evaluated afresh (no memo shared between operands or conditions: a remembered value comes back as text) [shared]", lambda ctx: __import__("conf").operands_evaluated_afresh(ctx)),
+    ("X-REEVAL", "an expression evaluated twice for one entry has the same typed value both times (no text-valued memo beside the map handed in) [shared]", lambda ctx: __import__("gcev").reevaluation_is_stable(ctx)),
     ("X-VARIANT", "Variant constructors keep the value they are given (a time is not rounded) [shared]", lambda ctx: __import__("extra").variant_constructors(ctx)),
 ]
 
